@@ -240,6 +240,7 @@ def decoder_length(prog, cd, rep, pairs):
 
 def run(prog, rep):
     cd = Codecs(prog)
+    cd.flag_errors(rep)
     rep.explanation = (
         "guarded-append: on the CFG of each add method the isinstance check (TypeError) and the frame-count check (ValueError, "
         "track rows vs the block's own stored frame count) dominate the append and nothing mutates self before them; "
@@ -247,9 +248,9 @@ def run(prog, rep):
         "elements go through the guarded add, the handler catches Exception, restores the saved list and re-raises; "
         "decoder-length: the decoder builds tracks with the header field that becomes the compared attribute."
     )
-    pairs = guarded_append(prog, cd, rep)
-    container_owners(prog, rep)
-    atomic_assign(prog, rep)
-    decoder_length(prog, cd, rep, pairs)
+    pairs = rep.attempt(guarded_append, prog, cd, rep) or {}
+    rep.attempt(container_owners, prog, rep)
+    rep.attempt(atomic_assign, prog, rep)
+    rep.attempt(decoder_length, prog, cd, rep, pairs)
     rep.note("tracks getters return the internal list (block.tracks.append(x) bypasses the guard): outside the property's quantifier (add-track / assign-track-list calls)")
     rep.not_decided += ["in-place replacement of a track's own array after it was added", "mutation through the list returned by the getter"]
